@@ -218,7 +218,7 @@ def shard(ctx: Ctx):
         s = draw(gen.schemas(feats, sizes, min_tables=1))
         return s, draw(gen.styles(features=wfeat)), draw(st.lists(st.booleans(), min_size=1, max_size=5))
 
-    hyp_run(ctx, 'strict', cases(), lambda c: evaluate(c, ctx), 100 if quick else 3000)
+    hyp_run(ctx, 'strict', cases(), lambda c: evaluate(c, ctx), 100 if quick else 1000)
     zones = [('prop_newline', 'F-PROPNL'), ('kw_prefix_name', 'F-KWPREFIX'), ('multiline_value', 'F-MLPROP')]
     for feat, fid in zones:
         if not F.is_open(fid):
@@ -231,4 +231,4 @@ def shard(ctx: Ctx):
             s = draw(gen.schemas(zf, sizes, min_tables=1))
             return s, draw(gen.styles(features=zw)), [False, True]
 
-        hyp_run(ctx, f'zone:{feat}', zcases(), lambda c, feat=feat: evaluate(c, ctx, f'zone:{feat}'), 10 if quick else 200)
+        hyp_run(ctx, f'zone:{feat}', zcases(), lambda c, feat=feat: evaluate(c, ctx, f'zone:{feat}'), 10 if quick else 60)
